@@ -1,1 +1,775 @@
 //! C14: built-in reports, parsed back, state exactly the facts of the event stream. (see parse.rs)
+
+use cucumber::{
+    Writer as _, cli,
+    writer::{self, Coloring, Verbosity},
+};
+use futures::executor::block_on;
+
+use super::{Ev, Sink};
+use crate::lab::W;
+
+pub struct Reports {
+    pub basic: Result<String, String>,
+    pub libtest: Result<String, String>,
+    pub json: Result<String, String>,
+    pub junit: Result<String, String>,
+}
+
+#[derive(Clone, Copy, Debug)]
+pub struct Opts {
+    pub verbosity: u8,
+    pub show_output: bool,
+    pub report_time: bool,
+    pub junit_verbose: bool,
+}
+
+fn guarded(f: impl FnOnce() -> String) -> Result<String, String> {
+    std::panic::catch_unwind(std::panic::AssertUnwindSafe(f)).map_err(|p| {
+        p.downcast_ref::<String>().cloned().or_else(|| p.downcast_ref::<&str>().map(|s| (*s).to_string())).unwrap_or_else(|| "reporter panicked".into())
+    })
+}
+
+/// Feeds `stream` to the four built-in reporters, each behind `Normalize`.
+pub fn produce(stream: &[Ev], o: &Opts) -> Reports {
+    let s = |k: &Sink| String::from_utf8_lossy(&k.0.borrow()).into_owned();
+    let verb = match o.verbosity {
+        0 => Verbosity::Default,
+        1 => Verbosity::ShowWorld,
+        _ => Verbosity::ShowWorldAndDocString,
+    };
+    let basic = guarded(|| {
+        let sink = Sink::default();
+        let mut w = writer::Normalize::<W, _>::new(writer::Basic::raw(sink.clone(), Coloring::Never, verb));
+        let cli = writer::basic::Cli { verbose: o.verbosity, color: Coloring::Never };
+        for e in stream {
+            block_on(w.handle_event(e.clone(), &cli));
+        }
+        s(&sink)
+    });
+    let libtest = guarded(|| {
+        let sink = Sink::default();
+        let mut w = writer::Normalize::<W, _>::new(writer::Libtest::<W, _>::raw(sink.clone()));
+        let cli = writer::libtest::Cli { format: None, show_output: o.show_output, report_time: o.report_time.then_some(writer::libtest::ReportTime::Plain), nightly: None };
+        for e in stream {
+            block_on(w.handle_event(e.clone(), &cli));
+        }
+        s(&sink)
+    });
+    let json = guarded(|| {
+        let sink = Sink::default();
+        let mut w = writer::Normalize::<W, _>::new(writer::Json::raw(sink.clone()));
+        for e in stream {
+            block_on(w.handle_event(e.clone(), &cli::Empty));
+        }
+        s(&sink)
+    });
+    let junit = guarded(|| {
+        let sink = Sink::default();
+        let mut w = writer::Normalize::<W, _>::new(writer::JUnit::<W, _>::raw(sink.clone(), if o.junit_verbose { Verbosity::ShowWorld } else { Verbosity::Default }));
+        let cli = writer::junit::Cli { verbose: None };
+        for e in stream {
+            block_on(w.handle_event(e.clone(), &cli));
+        }
+        s(&sink)
+    });
+    Reports { basic, libtest, json, junit }
+}
+
+// ------------------------------------------------------------------------------------------
+// facts of the stream
+
+use std::collections::BTreeMap;
+
+use cucumber::{
+    event::{self, Cucumber, Hook, HookType, Scenario, Step, StepError},
+    gherkin, parser,
+};
+
+use super::{
+    info_string,
+    parse::{J, Xml, parse_json, parse_xml},
+};
+use crate::engine::Violation;
+
+fn v(sig: &str, msg: String) -> Violation {
+    Violation::new(format!("C14/{sig}"), msg)
+}
+
+#[derive(Clone, Debug)]
+pub struct Ctx {
+    pub fname: String,
+    pub fkeyword: String,
+    pub fpath: Option<String>,
+    pub rule: Option<(usize, String, String)>, // line, keyword, name
+    pub sline: usize,
+    pub scol: usize,
+    pub skeyword: String,
+    pub sname: String,
+    pub retries: Option<(usize, usize)>,
+    pub bg_keyword: String,
+}
+
+#[derive(Clone, Debug)]
+pub enum Fact {
+    Step { c: Ctx, bg: bool, line: usize, col: usize, keyword: String, text: String, status: &'static str, msg: Option<String> },
+    HookFailed { c: Ctx, before: bool, msg: String },
+    HookPassed { c: Ctx, before: bool },
+    Attempt { c: Ctx, status: &'static str, msgs: Vec<String> },
+    ParserError { path: Option<String>, raw_path: Option<String>, line: usize, col: usize, display: String },
+}
+
+fn trim(p: &std::path::Path) -> Option<String> {
+    p.to_str().map(|s| s.trim_start_matches('/').to_string())
+}
+
+/// Facts of a stream, in stream order. Attempt facts are emitted at the attempt's `Finished`.
+pub fn facts(stream: &[Ev]) -> Vec<Fact> {
+    let mut out = vec![];
+    let mut open: BTreeMap<(usize, Option<(usize, usize)>), (bool, bool, Vec<String>)> = BTreeMap::new(); // (failed, skipped, msgs)
+    for e in stream {
+        match e {
+            Err(parser::Error::ExampleExpansion(x)) => out.push(Fact::ParserError { path: x.path.as_deref().and_then(trim), raw_path: x.path.as_deref().and_then(|p| p.to_str()).map(str::to_string), line: x.pos.line, col: x.pos.col, display: e.as_ref().err().map(ToString::to_string).unwrap_or_default() }),
+            Err(err) => out.push(Fact::ParserError { path: None, raw_path: None, line: 0, col: 0, display: err.to_string() }),
+            Ok(ev) => {
+                let Cucumber::Feature(f, fe) = &ev.value else { continue };
+                let (r, s, re): (Option<&gherkin::Rule>, &event::Source<gherkin::Scenario>, &event::RetryableScenario<W>) = match fe {
+                    event::Feature::Scenario(s, re) => (None, s, re),
+                    event::Feature::Rule(r, event::Rule::Scenario(s, re)) => (Some(&**r), s, re),
+                    _ => continue,
+                };
+                let c = Ctx {
+                    fname: f.name.clone(),
+                    fkeyword: f.keyword.clone(),
+                    fpath: f.path.as_deref().and_then(trim),
+                    rule: r.map(|r| (r.position.line, r.keyword.clone(), r.name.clone())),
+                    sline: s.position.line,
+                    scol: s.position.col,
+                    skeyword: s.keyword.clone(),
+                    sname: s.name.clone(),
+                    retries: re.retries.map(|r| (r.current, r.left)),
+                    bg_keyword: f.background.as_ref().map_or("Background".to_string(), |b| b.keyword.clone()),
+                };
+                let key = (super::src_ptr(s), c.retries);
+                let mut step = |bg: bool, st: &gherkin::Step, se: &Step<W>, out: &mut Vec<Fact>, open: &mut BTreeMap<_, (bool, bool, Vec<String>)>| {
+                    let (status, msg): (&'static str, Option<String>) = match se {
+                        Step::Started => return,
+                        Step::Passed(..) => ("passed", None),
+                        Step::Skipped => ("skipped", None),
+                        Step::Failed(_, _, _, StepError::NotFound) => ("notfound", None),
+                        Step::Failed(_, _, _, StepError::AmbiguousMatch(_)) => ("ambiguous", None),
+                        Step::Failed(_, _, _, StepError::Panic(i)) => ("failed", Some(info_string(i))),
+                    };
+                    let o = open.entry(key).or_default();
+                    match status {
+                        "skipped" => o.1 = true,
+                        "passed" => {}
+                        _ => {
+                            o.0 = true;
+                            o.2.push(msg.clone().unwrap_or_else(|| status.to_string()));
+                        }
+                    }
+                    out.push(Fact::Step { c: c.clone(), bg, line: st.position.line, col: st.position.col, keyword: st.keyword.clone(), text: st.value.clone(), status, msg });
+                };
+                match &re.event {
+                    Scenario::Started => {
+                        open.insert(key, (false, false, vec![]));
+                    }
+                    Scenario::Background(st, se) => step(true, st, se, &mut out, &mut open),
+                    Scenario::Step(st, se) => step(false, st, se, &mut out, &mut open),
+                    Scenario::Hook(t, h) => {
+                        let before = matches!(t, HookType::Before);
+                        match h {
+                            Hook::Started => {}
+                            Hook::Passed => out.push(Fact::HookPassed { c, before }),
+                            Hook::Failed(_, i) => {
+                                let o = open.entry(key).or_default();
+                                o.0 = true;
+                                o.2.push(info_string(i));
+                                out.push(Fact::HookFailed { c, before, msg: info_string(i) });
+                            }
+                        }
+                    }
+                    Scenario::Log(_) => {}
+                    Scenario::Finished => {
+                        let (failed, skipped, msgs) = open.remove(&key).unwrap_or_default();
+                        out.push(Fact::Attempt { c, status: if failed { "failure" } else if skipped { "skipped" } else { "success" }, msgs });
+                    }
+                }
+            }
+        }
+    }
+    out
+}
+
+/// Extracts generated failure messages (`<uid>:<where>-panic<decoration>`) from free text.
+pub fn extract_msgs(text: &str) -> Vec<String> {
+    thread_local! {
+        static RE: regex::Regex = regex::Regex::new(r"f\d+(?:r\d+)?s\d+#(?:-|\d+):[a-z0-9-]+-panic[^\n]*").unwrap();
+    }
+    RE.with(|re| re.find_iter(text).map(|m| m.as_str().trim_end().to_string()).collect())
+}
+
+fn retry_suffix(r: Option<(usize, usize)>, sep: &str) -> String {
+    r.filter(|r| r.0 > 0).map_or(String::new(), |r| format!(" | Retry attempt{sep}{}/{}", r.0, r.0 + r.1))
+}
+
+fn multiset_diff(kind: &str, expected: &[String], got: &[String]) -> Option<String> {
+    let mut e: BTreeMap<&str, i64> = BTreeMap::new();
+    for x in expected {
+        *e.entry(x).or_default() += 1;
+    }
+    for x in got {
+        *e.entry(x).or_default() -= 1;
+    }
+    let missing: Vec<&str> = e.iter().filter(|(_, n)| **n > 0).map(|(k, _)| *k).take(3).collect();
+    let extra: Vec<&str> = e.iter().filter(|(_, n)| **n < 0).map(|(k, _)| *k).take(3).collect();
+    if missing.is_empty() && extra.is_empty() {
+        None
+    } else {
+        Some(format!("{kind}: facts of the run missing from the report: {missing:?}; facts in the report that did not happen: {extra:?}"))
+    }
+}
+
+// ------------------------------------------------------------------------------------------
+// libtest
+
+pub struct Shapes {
+    pub pathless: bool,
+    pub cdata_end: bool,
+    pub skipped_attempt_with_steps: bool,
+}
+
+pub fn check_libtest(text: &str, facts: &[Fact], pf_steps_plus_errors: Option<usize>) -> Vec<Violation> {
+    let mut viol = vec![];
+    let mut lines: Vec<J> = vec![];
+    for (i, l) in text.lines().enumerate() {
+        match parse_json(l) {
+            Ok(j) => lines.push(j),
+            Err(e) => {
+                viol.push(v("libtest/malformed-json-line", format!("line {i}: {e}: {l:?}")));
+                return viol;
+            }
+        }
+    }
+    // ---- expected
+    let name_of = |c: &Ctx, last: String, num: &str| {
+        let mut parts = vec![format!("{}: {} {}", c.fkeyword, c.fname, c.fpath.as_ref().map_or(num.to_string(), |p| p.escape_default().to_string()))];
+        if let Some((l, k, n)) = &c.rule {
+            parts.push(format!("{l}: {k}: {n}"));
+        }
+        parts.push(format!("{}: {}: {}{}", c.sline, c.skeyword, c.sname, retry_suffix(c.retries, " ")));
+        parts.push(last);
+        parts.join("::")
+    };
+    let mut exp: Vec<String> = vec![];
+    let (mut n_ok, mut n_ign, mut n_failed_final) = (0usize, 0usize, 0usize);
+    for f in facts {
+        match f {
+            Fact::Step { c, bg, line, keyword, text, status, msg, .. } => {
+                let last = format!("{line}: {}{keyword}{text}", if *bg { format!("{} ", c.bg_keyword) } else { " ".to_string() });
+                let name = name_of(c, last, "#");
+                let ev = match *status {
+                    "passed" => "ok",
+                    "skipped" => "ignored",
+                    _ => "failed",
+                };
+                match ev {
+                    "ok" => n_ok += 1,
+                    "ignored" => n_ign += 1,
+                    _ => {
+                        if *status == "notfound" || c.retries.is_none_or(|r| r.1 == 0) {
+                            n_failed_final += 1;
+                        }
+                    }
+                }
+                exp.push(format!("started|{name}"));
+                exp.push(format!("{ev}|{name}|{}|{}", status_detail(status), msg.clone().unwrap_or_default()));
+            }
+            Fact::HookFailed { c, before, msg } => {
+                let name = name_of(c, format!("{} hook", if *before { "Before" } else { "After" }), "#");
+                n_failed_final += 1; // hook errors always count (reading R4 / D2 aside)
+                exp.push(format!("started|{name}"));
+                exp.push(format!("failed|{name}|failed|{msg}"));
+            }
+            Fact::ParserError { raw_path, .. } => {
+                // (libtest prints the parser error's path as given, not trimmed)
+                let name = format!("Feature: Parsing {}", raw_path.as_ref().map_or("#".to_string(), |p| p.escape_default().to_string()));
+                n_failed_final += 1;
+                exp.push(format!("started|{name}"));
+                exp.push(format!("failed|{name}|parser|"));
+            }
+            _ => {}
+        }
+    }
+    // ---- parsed
+    let mut got: Vec<String> = vec![];
+    let mut pending: BTreeMap<String, i64> = BTreeMap::new();
+    let mut suite_started: Vec<f64> = vec![];
+    let mut suite_result: Vec<&J> = vec![];
+    let canon = |name: &str| -> String {
+        // path-less features carry a running number: replaced by `#` for the fact comparison
+        let first = name.split("::").next().unwrap_or("");
+        let rest = &name[first.len()..];
+        match first.rsplit_once(' ') {
+            Some((head, tail)) if !tail.is_empty() && tail.bytes().all(|b| b.is_ascii_digit()) => format!("{head} #{rest}"),
+            _ => name.to_string(),
+        }
+    };
+    for j in &lines {
+        match (j.get("type").and_then(J::str), j.get("event").and_then(J::str)) {
+            (Some("suite"), Some("started")) => suite_started.push(j.get("test_count").and_then(J::num).unwrap_or(-1.0)),
+            (Some("suite"), Some("ok" | "failed")) => suite_result.push(j),
+            (Some("test"), Some(ev)) => {
+                let name = j.get("name").and_then(J::str).unwrap_or("");
+                let stdout = j.get("stdout").and_then(J::str).unwrap_or("");
+                match ev {
+                    "started" => {
+                        *pending.entry(name.to_string()).or_default() += 1;
+                        got.push(format!("started|{}", canon(name)));
+                    }
+                    "ok" | "ignored" | "failed" => {
+                        *pending.entry(name.to_string()).or_default() -= 1;
+                        let detail = if ev == "failed" {
+                            if name.starts_with("Feature: Parsing ") {
+                                "parser"
+                            } else if stdout.contains("Step match is ambiguous") {
+                                "ambiguous"
+                            } else if stdout.contains("Step doesn't match any function") {
+                                "notfound"
+                            } else {
+                                "failed"
+                            }
+                        } else if ev == "ok" {
+                            "passed"
+                        } else {
+                            "skipped"
+                        };
+                        let msg = extract_msgs(stdout).into_iter().next().unwrap_or_default();
+                        got.push(format!("{ev}|{}|{detail}|{msg}", canon(name)));
+                    }
+                    other => viol.push(v("libtest/unknown-event", format!("unknown test event {other:?}"))),
+                }
+            }
+            _ => viol.push(v("libtest/unknown-line", format!("unrecognised line {j:?}"))),
+        }
+    }
+    if let Some(d) = multiset_diff("libtest", &exp, &got) {
+        viol.push(v("libtest/facts", d));
+    }
+    // started/result pairing by exact name
+    let unpaired: Vec<&String> = pending.iter().filter(|(_, n)| **n != 0).map(|(k, _)| k).take(3).collect();
+    if !unpaired.is_empty() {
+        let pathless = facts.iter().any(|f| matches!(f, Fact::Step { c, .. } | Fact::HookFailed { c, .. } if c.fpath.is_none()));
+        viol.push(v(if pathless { "libtest/started-result-pairing/pathless-feature" } else { "libtest/started-result-pairing" }, format!("`started` lines without exactly one result line of the same name (or vice versa): {unpaired:?}")));
+    }
+    // suite lines
+    if suite_started.len() != 1 || suite_result.len() != 1 {
+        viol.push(v("libtest/suite-lines", format!("{} suite started lines, {} suite result lines", suite_started.len(), suite_result.len())));
+    } else {
+        if let Some(n) = pf_steps_plus_errors {
+            if suite_started[0] != n as f64 {
+                viol.push(v("libtest/test-count", format!("suite started test_count={} but ParsingFinished announced {n} steps + parser errors", suite_started[0])));
+            }
+        }
+        let r = suite_result[0];
+        let num = |k: &str| r.get(k).and_then(J::num).unwrap_or(-1.0) as i64;
+        let verdict_failed = r.get("event").and_then(J::str) == Some("failed");
+        if num("passed") != n_ok as i64 || num("ignored") != n_ign as i64 {
+            viol.push(v("libtest/suite-totals", format!("suite passed={} ignored={} but entries show ok={n_ok} ignored={n_ign}", num("passed"), num("ignored"))));
+        }
+        if num("failed") != n_failed_final as i64 {
+            let nonfinal_hook = facts.iter().any(|f| matches!(f, Fact::HookFailed { c, .. } if c.retries.is_some_and(|r| r.1 > 0)));
+            let _ = nonfinal_hook;
+            viol.push(v("libtest/suite-totals", format!("suite failed={} but entries show {n_failed_final} final failures (incl. hook failures and parser errors)", num("failed"))));
+        }
+        if verdict_failed != (num("failed") > 0) {
+            viol.push(v("libtest/suite-verdict", format!("suite verdict failed={verdict_failed} with failed={}", num("failed"))));
+        }
+    }
+    viol
+}
+
+fn status_detail(s: &str) -> &'static str {
+    match s {
+        "passed" => "passed",
+        "skipped" => "skipped",
+        "ambiguous" => "ambiguous",
+        "notfound" => "notfound",
+        _ => "failed",
+    }
+}
+
+// ------------------------------------------------------------------------------------------
+// Cucumber JSON
+
+pub fn check_json(text: &str, facts: &[Fact]) -> Vec<Violation> {
+    let mut viol = vec![];
+    let doc = match parse_json(text) {
+        Ok(d) => d,
+        Err(e) => {
+            viol.push(v("json/malformed", format!("{e}; document starts {:?}", text.chars().take(120).collect::<String>())));
+            return viol;
+        }
+    };
+    let opt = |o: &Option<String>| o.clone().unwrap_or_else(|| "<none>".into());
+    let mut exp: Vec<String> = vec![];
+    for f in facts {
+        match f {
+            Fact::Step { c, bg, line, keyword, text, status, msg, .. } => {
+                let el = format!("{}{}", c.rule.as_ref().map_or(String::new(), |r| format!("{} ", r.2)), c.sname);
+                let st = match *status {
+                    "notfound" => "undefined",
+                    s => s,
+                };
+                exp.push(format!("step|{}|{}|{}|{el}|{}|{keyword}|{line}|{text}|{st}|{}", opt(&c.fpath), c.fname, if *bg { "background" } else { "scenario" }, c.sline, msg.clone().unwrap_or_default()));
+            }
+            Fact::HookFailed { c, before, msg } => {
+                let el = format!("{}{}", c.rule.as_ref().map_or(String::new(), |r| format!("{} ", r.2)), c.sname);
+                exp.push(format!("hook|{}|{}|{el}|{}|{}|failed|{msg}", opt(&c.fpath), c.fname, c.sline, if *before { "before" } else { "after" }));
+            }
+            Fact::HookPassed { c, before } => {
+                let el = format!("{}{}", c.rule.as_ref().map_or(String::new(), |r| format!("{} ", r.2)), c.sname);
+                exp.push(format!("hook|{}|{}|{el}|{}|{}|passed|", opt(&c.fpath), c.fname, c.sline, if *before { "before" } else { "after" }));
+            }
+            Fact::ParserError { path, display, .. } => {
+                // the JSON report carries the inner error's message (without the `parser::Error` prefix)
+                let inner = display.strip_prefix("Failed to expand examples: ").or_else(|| display.strip_prefix("Failed to parse feature: ")).unwrap_or(display);
+                exp.push(format!("perr|{}|{inner}", opt(path)));
+            }
+            Fact::Attempt { .. } => {}
+        }
+    }
+    let mut got: Vec<String> = vec![];
+    let mut seen_features: BTreeMap<(String, String), usize> = BTreeMap::new();
+    for feat in doc.arr() {
+        let uri = feat.get("uri").and_then(J::str).map_or("<none>".to_string(), str::to_string);
+        let fname = feat.get("name").and_then(J::str).unwrap_or("").to_string();
+        let is_err = feat.get("keyword").and_then(J::str) == Some("");
+        if !is_err {
+            *seen_features.entry((uri.clone(), fname.clone())).or_default() += 1;
+        }
+        let mut seen_el: BTreeMap<(String, String, i64), usize> = BTreeMap::new();
+        for el in feat.get("elements").map_or(&[][..], J::arr) {
+            let ty = el.get("type").and_then(J::str).unwrap_or("").to_string();
+            let elname = el.get("name").and_then(J::str).unwrap_or("").to_string();
+            let elline = el.get("line").and_then(J::num).unwrap_or(-1.0) as i64;
+            *seen_el.entry((ty.clone(), elname.clone(), elline)).or_default() += 1;
+            for st in el.get("steps").map_or(&[][..], J::arr) {
+                let res = st.get("result");
+                let status = res.and_then(|r| r.get("status")).and_then(J::str).unwrap_or("?");
+                let em = res.and_then(|r| r.get("error_message")).and_then(J::str).unwrap_or("");
+                if is_err {
+                    got.push(format!("perr|{uri}|{em}"));
+                } else {
+                    got.push(format!(
+                        "step|{uri}|{fname}|{ty}|{elname}|{elline}|{}|{}|{}|{status}|{}",
+                        st.get("keyword").and_then(J::str).unwrap_or("?"),
+                        st.get("line").and_then(J::num).unwrap_or(-1.0) as i64,
+                        st.get("name").and_then(J::str).unwrap_or("?"),
+                        extract_msgs(em).into_iter().next().unwrap_or_default()
+                    ));
+                }
+            }
+            for (k, arr) in [("before", el.get("before")), ("after", el.get("after"))] {
+                for h in arr.map_or(&[][..], J::arr) {
+                    let res = h.get("result");
+                    let status = res.and_then(|r| r.get("status")).and_then(J::str).unwrap_or("?");
+                    let em = res.and_then(|r| r.get("error_message")).and_then(J::str).unwrap_or("");
+                    got.push(format!("hook|{uri}|{fname}|{elname}|{elline}|{k}|{status}|{}", extract_msgs(em).into_iter().next().unwrap_or_default()));
+                }
+            }
+        }
+        if let Some((k, n)) = seen_el.iter().find(|(_, n)| **n > 1) {
+            viol.push(v("json/element-split", format!("element {k:?} appears {n} times inside feature `{fname}`")));
+        }
+    }
+    if let Some(((uri, name), n)) = seen_features.iter().find(|(_, n)| **n > 1) {
+        viol.push(v(if uri == "<none>" { "json/feature-split/pathless-feature" } else { "json/feature-split" }, format!("feature `{name}` (uri {uri}) appears as {n} separate feature objects")));
+    }
+    if let Some(d) = multiset_diff("json", &exp, &got) {
+        viol.push(v("json/facts", d));
+    }
+    viol
+}
+
+// ------------------------------------------------------------------------------------------
+// terminal (writer::Basic) line grammar
+
+#[derive(Default)]
+struct BasicCtx {
+    f: String,
+    r: String,
+    s: String,
+    retry: String,
+}
+
+/// Parses `writer::Basic` output (Coloring::Never) into canonical fact strings.
+pub fn parse_basic(text: &str, with_headers: bool) -> Vec<String> {
+    thread_local! {
+        static STEP: regex::Regex = regex::Regex::new(r"^\s*(✔|\?|✘)(>| ) (Given |When |Then )(.*)$").unwrap();
+        static HOOK: regex::Regex = regex::Regex::new(r"^\s*✘  Scenario's (Before|After) hook failed (.*)$").unwrap();
+        static SCEN: regex::Regex = regex::Regex::new(r"^\s*Scenario: (.*?)( \| Retry attempt: (\d+)/(\d+))?$").unwrap();
+    }
+    let mut out: Vec<String> = vec![];
+    let mut c = BasicCtx::default();
+    // (index into out of the last fact, its detail text)
+    let mut last: Option<usize> = None;
+    let mut detail = String::new();
+    let flush = |out: &mut Vec<String>, last: &mut Option<usize>, detail: &mut String| {
+        if let Some(i) = last.take() {
+            let kind = if detail.contains("Step match is ambiguous") {
+                "ambiguous"
+            } else if detail.contains("Step doesn't match any function") {
+                "notfound"
+            } else {
+                ""
+            };
+            let msg = extract_msgs(detail).into_iter().next().unwrap_or_default();
+            out[i] = out[i].replace("{KIND}", kind).replace("{MSG}", &msg);
+        }
+        detail.clear();
+    };
+    for l in text.lines() {
+        let t = l.trim_start();
+        if let Some(n) = t.strip_prefix("Feature: ").filter(|_| !l.starts_with(' ')) {
+            flush(&mut out, &mut last, &mut detail);
+            c = BasicCtx { f: n.to_string(), ..BasicCtx::default() };
+            if with_headers {
+                out.push(format!("F|{n}"));
+            }
+        } else if let Some(n) = t.strip_prefix("Rule: ") {
+            flush(&mut out, &mut last, &mut detail);
+            c.r = n.to_string();
+            if with_headers {
+                out.push(format!("R|{}|{n}", c.f));
+            }
+        } else if let Some(m) = SCEN.with(|re| re.captures(l).map(|m| (m[1].to_string(), m.get(3).map(|x| x.as_str().to_string()), m.get(4).map(|x| x.as_str().to_string())))) {
+            flush(&mut out, &mut last, &mut detail);
+            c.s = m.0;
+            c.retry = match (m.1, m.2) {
+                (Some(a), Some(b)) => format!("{a}/{b}"),
+                _ => String::new(),
+            };
+            // a scenario directly under the feature resets the rule context only if it is less indented than rule scenarios
+            let indent = l.len() - t.len();
+            if indent <= 2 {
+                c.r.clear();
+            }
+            out.push(format!("S|{}|{}|{}|{}", c.f, c.r, c.s, c.retry));
+        } else if let Some((mark, bg, kw, text)) = STEP.with(|re| re.captures(l).map(|m| (m[1].to_string(), &m[2] == ">", m[3].to_string(), m[4].to_string()))) {
+            flush(&mut out, &mut last, &mut detail);
+            let status = match mark.as_str() {
+                "✔" => "passed",
+                "?" => "skipped",
+                _ => "failed{KIND}",
+            };
+            out.push(format!("step|{}|{}|{}|{}|{bg}|{kw}{text}|{status}|{{MSG}}", c.f, c.r, c.s, c.retry));
+            last = Some(out.len() - 1);
+        } else if let Some(kind) = HOOK.with(|re| re.captures(l).map(|m| m[1].to_string())) {
+            flush(&mut out, &mut last, &mut detail);
+            out.push(format!("hook|{}|{}|{}|{}|{kind}|{{MSG}}", c.f, c.r, c.s, c.retry));
+            last = Some(out.len() - 1);
+        } else if let Some(m) = t.strip_prefix("Failed to parse: ") {
+            flush(&mut out, &mut last, &mut detail);
+            out.push(format!("perr|{m}"));
+        } else {
+            detail.push_str(l);
+            detail.push('\n');
+        }
+    }
+    flush(&mut out, &mut last, &mut detail);
+    out.iter().map(|s| s.replace("failed{KIND}", "failed").replace("{MSG}", "")).collect()
+}
+
+pub fn expected_basic(facts: &[Fact], with_headers: bool) -> Vec<String> {
+    let mut out = vec![];
+    let mut seen_f: Vec<String> = vec![];
+    let mut seen_r: Vec<(String, String)> = vec![];
+    let mut seen_a: Vec<(String, String, String, usize, Option<(usize, usize)>)> = vec![];
+    let mut head = |c: &Ctx, out: &mut Vec<String>| {
+        let r = c.rule.as_ref().map_or(String::new(), |r| r.2.clone());
+        if with_headers && !seen_f.contains(&c.fname) {
+            seen_f.push(c.fname.clone());
+            out.push(format!("F|{}", c.fname));
+        }
+        if with_headers && !r.is_empty() && !seen_r.contains(&(c.fname.clone(), r.clone())) {
+            seen_r.push((c.fname.clone(), r.clone()));
+            out.push(format!("R|{}|{r}", c.fname));
+        }
+        let retry = c.retries.filter(|r| r.0 > 0).map_or(String::new(), |r| format!("{}/{}", r.0, r.0 + r.1));
+        let a = (c.fname.clone(), r.clone(), c.sname.clone(), c.sline, c.retries);
+        if !seen_a.contains(&a) {
+            seen_a.push(a);
+            out.push(format!("S|{}|{r}|{}|{retry}", c.fname, c.sname));
+        }
+        (r, retry)
+    };
+    for f in facts {
+        match f {
+            Fact::Step { c, bg, keyword, text, status, msg, .. } => {
+                let (r, retry) = head(c, &mut out);
+                let st = match *status {
+                    "passed" => "passed".to_string(),
+                    "skipped" => "skipped".to_string(),
+                    "ambiguous" => "failedambiguous".to_string(),
+                    "notfound" => "failednotfound".to_string(),
+                    _ => "failed".to_string(),
+                };
+                out.push(format!("step|{}|{r}|{}|{retry}|{bg}|{keyword}{text}|{st}|{}", c.fname, c.sname, msg.clone().unwrap_or_default()));
+            }
+            Fact::HookFailed { c, before, msg } => {
+                let (r, retry) = head(c, &mut out);
+                out.push(format!("hook|{}|{r}|{}|{retry}|{}|{msg}", c.fname, c.sname, if *before { "Before" } else { "After" }));
+            }
+            Fact::HookPassed { c, .. } | Fact::Attempt { c, .. } => {
+                head(c, &mut out);
+            }
+            Fact::ParserError { display, .. } => out.push(format!("perr|{display}")),
+        }
+    }
+    out
+}
+
+pub fn check_basic(text: &str, facts: &[Fact]) -> Vec<Violation> {
+    let got = parse_basic(text, true);
+    let exp = expected_basic(facts, true);
+    multiset_diff("terminal", &exp, &got).map(|d| vec![v("terminal/facts", d)]).unwrap_or_default()
+}
+
+// ------------------------------------------------------------------------------------------
+// JUnit XML
+
+pub fn check_junit(text: &str, facts: &[Fact]) -> Vec<Violation> {
+    let mut viol = vec![];
+    let root: Xml = match parse_xml(text) {
+        Ok(r) => r,
+        Err(e) => {
+            let cdata = facts.iter().any(|f| match f {
+                Fact::Step { c, text, msg, .. } => c.sname.contains("]]>") || text.contains("]]>") || msg.as_deref().is_some_and(|m| m.contains("]]>")),
+                Fact::HookFailed { c, msg, .. } => c.sname.contains("]]>") || msg.contains("]]>"),
+                Fact::Attempt { c, .. } | Fact::HookPassed { c, .. } => c.sname.contains("]]>"),
+                Fact::ParserError { .. } => false,
+            });
+            viol.push(v(if cdata { "junit/malformed/cdata-terminator" } else { "junit/malformed" }, format!("{e}")));
+            return viol;
+        }
+    };
+    if root.name != "testsuites" {
+        viol.push(v("junit/root", format!("root element is `{}`", root.name)));
+        return viol;
+    }
+    // expected
+    let mut exp: Vec<String> = vec![];
+    let mut exp_steps: Vec<String> = vec![];
+    for f in facts {
+        match f {
+            Fact::Attempt { c, status, .. } => {
+                let suite = format!("Feature: {}{}", c.fname, c.fpath.as_ref().map_or(String::new(), |p| format!(": {p}")));
+                let name = format!("{}Scenario: {}: {}{}:{}", c.rule.as_ref().map_or(String::new(), |r| format!("Rule: {}: ", r.2)), c.sname, c.fpath.as_ref().map_or(String::new(), |p| format!("{p}:")), c.sline, c.scol);
+                exp.push(format!("case|{suite}|{name}|{status}"));
+            }
+            Fact::ParserError { path, line, col, .. } => {
+                exp.push(format!("case|Errors|Feature: {}{line}:{col}|failure", path.as_ref().map_or(String::new(), |p| format!("{p}:"))));
+            }
+            _ => {}
+        }
+    }
+    // step-level facts embedded as terminal text; attempts reported as `skipped` carry none (D7 if they had steps)
+    let attempt_status: BTreeMap<(String, String, usize, Option<(usize, usize)>), &str> = facts
+        .iter()
+        .filter_map(|f| if let Fact::Attempt { c, status, .. } = f { Some(((c.fname.clone(), c.sname.clone(), c.sline, c.retries), *status)) } else { None })
+        .collect();
+    let mut dropped_by_skipped = 0usize;
+    for s in expected_basic(facts, false) {
+        exp_steps.push(s);
+    }
+    let mut got: Vec<String> = vec![];
+    let mut got_steps: Vec<String> = vec![];
+    for suite in root.children.iter().filter(|c| c.name == "testsuite") {
+        let sname = suite.attr("name").unwrap_or("").to_string();
+        let cases: Vec<&Xml> = suite.children.iter().filter(|c| c.name == "testcase").collect();
+        let nfail = cases.iter().filter(|c| c.child("failure").is_some()).count();
+        let nerr = cases.iter().filter(|c| c.child("error").is_some()).count();
+        let a = |k: &str| suite.attr(k).and_then(|x| x.parse::<usize>().ok());
+        if a("tests") != Some(cases.len()) || a("failures") != Some(nfail) || a("errors") != Some(nerr) {
+            viol.push(v("junit/suite-attributes", format!("suite `{sname}`: tests={:?} failures={:?} errors={:?} but it has {} testcases, {nfail} failures, {nerr} errors", suite.attr("tests"), suite.attr("failures"), suite.attr("errors"), cases.len())));
+        }
+        let fname = sname.strip_prefix("Feature: ").unwrap_or(&sname);
+        for case in cases {
+            let status = if case.child("failure").is_some() || case.child("error").is_some() {
+                "failure"
+            } else if case.child("skipped").is_some() {
+                "skipped"
+            } else {
+                "success"
+            };
+            got.push(format!("case|{sname}|{}|{status}", case.attr("name").unwrap_or("")));
+            let body = case.child("failure").map(|f| f.text.as_str()).or_else(|| case.child("system-out").map(|s| s.text.as_str())).unwrap_or("");
+            // the embedded text starts at the Scenario line: give it its feature / rule context
+            let _ = fname;
+            for s in parse_basic(body, false) {
+                got_steps.push(s);
+            }
+        }
+    }
+    if let Some(d) = multiset_diff("junit testcases", &exp, &got) {
+        viol.push(v("junit/testcases", d));
+    }
+    // Embedded step facts: compare without feature/rule context (the embedded text has only the Scenario line).
+    let strip = |s: &String| -> String {
+        let p: Vec<&str> = s.splitn(4, '|').collect();
+        if p.len() == 4 && (p[0] == "step" || p[0] == "hook" || p[0] == "S") { format!("{}|{}", p[0], p[3]) } else { s.clone() }
+    };
+    let exp_s: Vec<String> = exp_steps.iter().filter(|s| !s.starts_with("perr|")).map(strip).collect();
+    let got_s: Vec<String> = got_steps.iter().map(strip).collect();
+    if let Some(d) = multiset_diff("junit embedded steps", &exp_s, &got_s) {
+        // classify: only steps of attempts reported as `skipped` missing?
+        let mut e: BTreeMap<&str, i64> = BTreeMap::new();
+        for x in &exp_s {
+            *e.entry(x).or_default() += 1;
+        }
+        for x in &got_s {
+            *e.entry(x).or_default() -= 1;
+        }
+        let extra = e.values().any(|n| *n < 0);
+        let skipped_names: Vec<String> = attempt_status.iter().filter(|(_, s)| **s == "skipped").map(|(k, _)| k.1.clone()).collect();
+        let only_skipped = !extra && e.iter().filter(|(_, n)| **n > 0).all(|(k, _)| skipped_names.iter().any(|n| k.contains(&format!("|{n}|"))));
+        dropped_by_skipped += usize::from(only_skipped);
+        viol.push(v(if only_skipped { "junit/steps/skipped-testcase-drops-output" } else { "junit/steps" }, d));
+    }
+    let _ = dropped_by_skipped;
+    viol
+}
+
+
+/// All four reporters over one stream.
+pub fn check_all(stream: &[Ev], o: &Opts) -> Vec<Violation> {
+    let facts = facts(stream);
+    let pf = stream.iter().find_map(|e| match e {
+        Ok(ev) => match &ev.value {
+            Cucumber::ParsingFinished { steps, parser_errors, .. } => Some(steps + parser_errors),
+            _ => None,
+        },
+        Err(_) => None,
+    });
+    let r = produce(stream, o);
+    let mut viol = vec![];
+    match &r.basic {
+        Ok(t) => viol.extend(check_basic(t, &facts)),
+        Err(p) => viol.push(v("terminal/panic", p.clone())),
+    }
+    match &r.libtest {
+        Ok(t) => viol.extend(check_libtest(t, &facts, pf)),
+        Err(p) => viol.push(v("libtest/panic", p.clone())),
+    }
+    match &r.json {
+        Ok(t) => viol.extend(check_json(t, &facts)),
+        Err(p) => viol.push(v("json/panic", p.clone())),
+    }
+    match &r.junit {
+        Ok(t) => viol.extend(check_junit(t, &facts)),
+        Err(p) => viol.push(v("junit/panic", p.clone())),
+    }
+    viol
+}
